@@ -171,6 +171,37 @@ static void sub_badtype(const args_t *a, long c, rng_t *r)
 	}
 }
 
+/* sizes of 2 GiB and more, on a lazily mapped zero buffer, for the algorithms whose answer is cheap (they refuse before reading,
+ * or the underlying library refuses): success without a faithful round trip is a violation, failure is fine */
+#include <sys/mman.h>
+static void sub_hugebuf(const args_t *a, long c, rng_t *r)
+{
+	(void)a; (void)r;
+	static const uint64_t SZ[] = {0x7E000001ULL, 0x7F000000ULL, 0x7FFFFFFFULL, 0x80000000ULL, 0x80000001ULL, 0xFFFFFFFFULL, 0x100000000ULL, 0x100001000ULL, 0x200000309ULL};
+	uint64_t n = SZ[c % 9];
+	uint8_t *buf = mmap(NULL, n + 4096, PROT_READ, MAP_PRIVATE | MAP_ANONYMOUS | MAP_NORESERVE, -1, 0);
+	if (buf == MAP_FAILED) { inconclusive("cannot map %" PRIu64 " bytes", n); return; }
+	for (int alg = 3; alg <= 5; alg++) {
+		if (alg == 5 && n <= 0x7FFFFFFFULL) continue;      /* zstd would really compress 2 GiB: not cheap */
+		for (int pass = 0; pass < 2; pass++) {
+			uint8_t *out = NULL, *back = NULL; size_t lo = 0, lb = 0;
+			mtbl_res res = pass ? mtbl_compress_level((mtbl_compression_type)alg, 3, buf, n, &out, &lo) : mtbl_compress((mtbl_compression_type)alg, buf, n, &out, &lo);
+			statf(1, "huge.%s.%s", ALG[alg], res == mtbl_res_success ? "compressed" : "refused");
+			if (res != mtbl_res_success) continue;
+			if (mtbl_decompress((mtbl_compression_type)alg, out, lo, &back, &lb) != mtbl_res_success)
+				viol("C15/decompress-fails-on-own-output", "%s: compress of %" PRIu64 " bytes reported success (%zu bytes out) but decompress fails", ALG[alg], n, lo);
+			else {
+				if (lb != n) viol("C15/roundtrip-differs", "%s: %" PRIu64 " bytes in, %zu bytes back", ALG[alg], n, lb);
+				free(back);
+			}
+			free(out);
+		}
+	}
+	munmap(buf, n + 4096);
+	STAT("huge.buffers");
+	case_hash(n);
+}
+
 int main(int argc, char **argv)
 {
 	args_t a;
@@ -180,6 +211,7 @@ int main(int argc, char **argv)
 	else if (!strcmp(a.sub, "sized")) f = sub_sized;
 	else if (!strcmp(a.sub, "names")) f = sub_names;
 	else if (!strcmp(a.sub, "badtype")) f = sub_badtype;
+	else if (!strcmp(a.sub, "hugebuf")) f = sub_hugebuf;
 	else return 98;
 	if (want_sample()) sample("%s: cases %ld..%ld: each buffer through mtbl_compress and mtbl_compress_level for 5 algorithms x levels, output copied to an exact-size buffer, mtbl_decompress, byte compare", a.sub, a.start, a.start + a.count - 1);
 	return run_cases(&a, f);
